@@ -1,0 +1,110 @@
+//go:build verif
+// +build verif
+
+package hotkey
+
+import (
+	"fmt"
+	"strings"
+)
+
+// Re-exports for the verification harness (/verif). Compiled only with -tags verif.
+
+// VerifDump walks the frequency list forwards, checking every back link, item link,
+// tail pointer and the key map, and prints "freq:key,key;freq:key…" ("-" when empty).
+// Inconsistencies are appended as " !<what>".
+func VerifDump(c *Counter) string {
+	c.mu.Lock()
+	defer c.mu.Unlock()
+	var parts []string
+	var bad []string
+	seen := 0
+	var prevF *freqNode
+	for f := c.freqHead; f != nil; f = f.next {
+		if f.prev != prevF {
+			bad = append(bad, fmt.Sprintf("freq%d.prev", f.freq))
+		}
+		var keys []string
+		var prevI *itemNode
+		for it := f.itemHead; it != nil; it = it.next {
+			if it.prev != prevI {
+				bad = append(bad, "item("+it.key+").prev")
+			}
+			if it.freqNode != f {
+				bad = append(bad, "item("+it.key+").freqNode")
+			}
+			if c.items[it.key] != it {
+				bad = append(bad, "items["+it.key+"]")
+			}
+			keys = append(keys, it.key)
+			prevI = it
+			seen++
+			if seen > 100000 {
+				return "!cycle"
+			}
+		}
+		if f.itemTail != prevI {
+			bad = append(bad, fmt.Sprintf("freq%d.tail", f.freq))
+		}
+		parts = append(parts, fmt.Sprintf("%d:%s", f.freq, strings.Join(keys, ",")))
+		prevF = f
+	}
+	if seen != len(c.items) {
+		bad = append(bad, fmt.Sprintf("len(items)=%d,listed=%d", len(c.items), seen))
+	}
+	s := strings.Join(parts, ";")
+	if s == "" {
+		s = "-"
+	}
+	if len(bad) > 0 {
+		s += " !" + strings.Join(bad, "|")
+	}
+	return s
+}
+
+// VerifSetNow replaces the minute clock.
+func VerifSetNow(f func() int64) { nowInMinute = f }
+
+// VerifHot is an entry of the report.
+type VerifHot struct {
+	Name string
+	Val  uint8
+	Lut  int64
+}
+
+// VerifInsertAll inserts the entries one by one into a fresh bounded sorted slice.
+func VerifInsertAll(capacity uint8, in []VerifHot) (out []VerifHot, results []bool) {
+	s := newSortedHotKeys(capacity)
+	for _, h := range in {
+		results = append(results, s.Insert(HotKey{Name: h.Name, Counter: &logrithmCounter{val: h.Val, lut: h.Lut}}))
+	}
+	for _, k := range s.Data() {
+		out = append(out, VerifHot{k.Name, k.Counter.val, k.Counter.lut})
+	}
+	return
+}
+
+// VerifCollect runs one collection.
+func VerifCollect(c *Collector) { c.collect() }
+
+// VerifEvictStale runs one stale eviction.
+func VerifEvictStale(c *Collector) { c.evictStale() }
+
+// VerifSetKeys replaces the published report.
+func VerifSetKeys(c *Collector, in []VerifHot) {
+	keys := make([]HotKey, 0, len(in))
+	for _, h := range in {
+		keys = append(keys, HotKey{Name: h.Name, Counter: &logrithmCounter{val: h.Val, lut: h.Lut}})
+	}
+	c.rwmu.Lock()
+	c.keys = keys
+	c.rwmu.Unlock()
+}
+
+// VerifKeys reads the published report.
+func VerifKeys(c *Collector) (out []VerifHot) {
+	for _, k := range c.HotKeys() {
+		out = append(out, VerifHot{k.Name, k.Counter.val, k.Counter.lut})
+	}
+	return
+}
